@@ -407,5 +407,5 @@ func C12_Seq() {
 
 // C12_Brace*: braces, digits and commas are ordinary characters of shell
 // patterns (and repetition operators of the regular expression syntax).
-func C12_Brace4() { c12(4, 3, "a{1,}", false) }
-func C12_Brace5() { c12(5, 3, "a{1,}", false) }
+func C12_Brace4() { c12(4, 4, "a{1,}", false) }
+func C12_Brace5() { c12(5, 5, "a{1,}", false) }
